@@ -506,7 +506,9 @@ func checkCountersAgree(p *core.Program, r *core.Report, rule string) {
 		if fn.Name() != "Count" || core.FnPkgPath(fn) != core.ExpandKey("mod/internal/stringutil") {
 			continue
 		}
-		for _, call := range core.Calls(p.Inlined(fn), func(ci ssa.CallInstruction) bool { return core.IsCallTo(ci, "(*regexp.Regexp).FindAllString", "(*regexp.Regexp).FindAllStringIndex") }) {
+		for _, call := range core.Calls(p.Inlined(fn), func(ci ssa.CallInstruction) bool {
+			return core.IsCallTo(ci, "(*regexp.Regexp).FindAllString", "(*regexp.Regexp).FindAllStringIndex")
+		}) {
 			rx := c.Of(call.Common().Args[0])
 			if strings.HasPrefix(rx, "rx‹") && !seen[rx] {
 				seen[rx] = true
